@@ -31,6 +31,9 @@ CHECKS = {
     text="Round trips decided value-preserving for all values on the bounded tree family (deep, flat-from-deep, serde).", ref="4/C12"),
  "C15": dict(engine="S", technique="same engine; eval_vec/eval_iter terms decided equal to the reference; clone counter and moved-out-placeholder flag of the proxy type asserted per path",
     text="Consuming evaluation decided equal to the reference for all values; exactly-once variables are never cloned; the placeholder never reaches an operator.", ref="4/C15"),
+ "C19": dict(engine="M", technique="MIR of FloatOpsFactory::make (nightly -Zunpretty=mir) translated entry by entry to SMT-LIB FloatingPoint terms; z3 decides body(a,b) = documented function for all a, b at f64 and f32; counterexamples replayed through the real function pointers",
+    text="Every entry of the default table (34 operators in both roles, 6 constants) is decided to compute the function its name documents, with the documented argument order, for ALL float operands (IEEE + - * / interpreted bit-precisely, num::Float methods as uninterpreted functions named after the method). A body that is not a recognised single call is inconclusive, never a pass.", ref="4/C19",
+    note="Trusted: rustc nightly's MIR printer, z3 4.8.12 FP theory, num::Float forwarding to the std primitive (uninterpreted here), the name->primitive table transcribed from the rustdoc of FloatOpsFactory. sat answers are replayed natively through Operator::bin()/unary() of the real f32/f64 tables."),
 }
 
 def main():
